@@ -32,7 +32,8 @@ T3 == {Ptr(Ptr(Prim("int8"))), Slice(Ptr(Prim("uint8"))), Slice(Slice(Prim("stri
        Array(Ptr(Prim("int64")), 2), MapOf(Ptr(Prim("string"))), Ptr(Inner), Slice(Inner), MapOf(Inner), Slice(Ptr(Inner))}
 \* field types inside structs
 FT == {Prim("int8"), Prim("uint64"), Prim("string"), Prim("bool"), Prim("float32"), Ptr(Prim("int16")), Slice(Prim("string")),
-       MapOf(Prim("int")), Iface, Inner, Ptr(Inner), Array(Prim("uint8"), 2), Std("time"), Ptr(Std("bigint")), Ptr(Prim("string"))}
+       MapOf(Prim("int")), Iface, Inner, Ptr(Inner), Array(Prim("uint8"), 2), Std("time"), Ptr(Std("bigint")), Ptr(Prim("string")),
+       Ptr(Slice(Prim("string"))), Ptr(Ptr(Prim("int8"))), Ptr(MapOf(Prim("bool"))), Ptr(Iface)}
 TagForms == {<<"", {}>>, <<"n", {}>>, <<"", {"omitempty"}>>, <<"", {"omitzero"}>>, <<"n", {"omitempty", "omitzero"}>>}
 \* one-field structs: every field type x every tag form, plus "-", "-," and unexported
 S1 == {Struct("S", <<Field("F", tf[1], tf[2], t)>>) : t \in FT, tf \in TagForms}
